@@ -344,11 +344,15 @@ def case_tsv(inp):
 
 def case_tsv_simple(inp):
     ext = inp['ext']
+    delim = '\t' if ext == 'tsv' else ','
     field = inp['field']
     data = {int(k): build_cell(c) for k, c in inp['data']}
     assert len(data) == len(inp['data']) and not any(v is None for v in data.values())
     with tempdir() as tmp:
         path = os.path.join(tmp, 'cluster_%s.%s' % (field, ext))
+        if inp.get('pre'):  # a longer table already at the path
+            with open(path, 'w') as f:
+                f.write('cluster_id%sold\n' % delim + ''.join('%d%s%d\n' % (1000 + i, delim, i) for i in range(100)))
         M._write_tsv_simple(path, field, data)
         got = M._read_tsv_simple(path)
     yield 'returns-field-name-and-table', isinstance(got, tuple) and len(got) == 2 and type(got[1]) is dict, repr(got)[:300]
@@ -392,6 +396,9 @@ def case_params(inp):
     assert all(plain_param(v) for v in d.values())
     with tempdir() as tmp:
         path = os.path.join(tmp, 'params.py')
+        if inp.get('pre'):  # an older, longer parameter file already at the path
+            with open(path, 'w') as f:
+                f.write(''.join('old_%d = %d\n' % (i, i) for i in range(50)))
         M.write_python(path, d)
         got = M.read_python(path)
     yield 'reads-back-a-dict-with-the-same-keys', type(got) is dict and set(got) == set(d), (sorted(d), repr(got)[:300])
@@ -502,7 +509,8 @@ CELL_INTS = [['int', 0], ['int', 1], ['int', -1], ['int', 7], ['int', 123456], [
              ['np', 'uint16', '65535'], ['np', 'uint64', repr(2 ** 64 - 1)]]
 CELL_FLOATS = [['float', r] for r in ('0.0', '-0.0', '1.0', '3.0', '1.5', '-2.25', '0.12345', '0.00005', '0.00015', '2.5', '0.125', '1e-07', '123456.789', '99999.99995',
                                       '1e16', '1e20', '-1e-10', '0.1', '1.23456789', '1234.56789', '0.000123456', 'nan', 'inf', '-inf', '5e-324', '1.7976931348623157e308')] + \
-              [['np', 'float64', '0.333333333'], ['np', 'float32', '0.1'], ['np', 'float32', '16777216.0'], ['np', 'float64', '-7.0']]
+              [['np', 'float64', '0.333333333'], ['np', 'float32', '0.1'], ['np', 'float32', '16777216.0'], ['np', 'float64', '-7.0'],
+               ['np', 'float32', '0.33333334'], ['np', 'float32', '1234.5677'], ['np', 'float64', '2.718281828459045']]
 CELL_STRS = [['str', s] for s in ('good', 'mua', 'noise', 'a b', ' a', 'a ', ' ', 'a,b', ',', ',,', 'a\tb', '\t', '"', '""', '"a"', 'a"b', '"a', 'a"', 'say "hi", ok\tthen', "it's", "'",
                                   '1a', 'a1', '1,5', '1\t5', '1.2.3', '--1', '+', '-', '.', 'e', 'e5', '1e', '0x1f', '0b1', 'None', 'True', 'NaN1', 'in f', '1 2', '#c', ';', 'a;b', '|', '\\', '\\t', '\\"',
                                   '=1+1', 'x' * 200)]
@@ -604,6 +612,8 @@ def enumerate_cases(ctx):
                 for fill in (0, 1):
                     if quick and fill == 0 and layout not in ('C', 'strided'):
                         continue
+                    if dt == 'longdouble' and len(shape) == 1 and 1 <= shape[0] <= 10 and (layout not in ('C', 'strided') or fill == 0):
+                        continue  # known class (save_json recurses to the interpreter limit, ~0.1 s each): C and strided witnesses suffice
                     ctx.run('json', {'entries': [[['s', 'arr'], ['nd', dt, shape, layout, fill]]]})
     ctx.scope('save_json/load_json arrays in nested positions: array inside a list, inside a nested dict, inside a list inside a dict, two arrays side by side')
     for dt in ('int16', 'float32', 'uint64', 'bool', '>f8', 'complex128'):
@@ -634,10 +644,14 @@ def enumerate_cases(ctx):
     exts = ('tsv', 'csv')
     ffs = (None, 'id', 'g', 'q', 'zz')
     ctx.scope('write_tsv/read_tsv structure: every row list of 1..2 rows over fields %s where each field is absent / None / an int, with >= 2 columns overall '
-              '(includes fully empty rows), x {tsv, csv} x first_field in %s (quick: 2-row lists with first_field in {None, q} only)%s'
+              '(includes fully empty rows), x {tsv, csv} x first_field in %s (quick: 2-row lists with first_field None, and q for tsv, only)%s'
               % (FIELDS, list(ffs), '' if quick else '; every 3-row list x first_field in {None, q}'))
     _tsv_structure(ctx, [1], exts, ffs)
-    _tsv_structure(ctx, [2], exts, (None, 'q') if quick else ffs)
+    if quick:
+        _tsv_structure(ctx, [2], exts, (None,))
+        _tsv_structure(ctx, [2], ('tsv',), ('q',))
+    else:
+        _tsv_structure(ctx, [2], exts, ffs)
     if not quick:
         _tsv_structure(ctx, [3], exts, (None, 'q'))
     alpha, L = (['a', '1', ',', '\t', '"', ' '], 3) if quick else (['a', '1', ',', '\t', '"', ' ', "'", '.', '-', 'e'], 3)
@@ -653,7 +667,10 @@ def enumerate_cases(ctx):
             pos = FIELDS[i % 3]
             row = {f: ['int', 1] for f in FIELDS}
             row[pos] = ['str', s]
-            ctx.run('tsv', {'ext': ext, 'rows': [row, {FIELDS[(i + 1) % 3]: ['str', s]}], 'first_field': 'id', 'n': None})
+            inp = {'ext': ext, 'rows': [row, {FIELDS[(i + 1) % 3]: ['str', s]}], 'first_field': 'id', 'n': None}
+            if i % 4 == 0:
+                inp['pre'] = True
+            ctx.run('tsv', inp)
     for c in CELL_STRS:
         for ext in exts:
             for pos in FIELDS:
@@ -703,7 +720,7 @@ def enumerate_cases(ctx):
             ctx.run('tsv_simple', {'ext': ext, 'field': ('group', 'KSLabel', 'my_label', 'q1')[i % 4], 'data': [[ids[i % len(ids)], c]]})
         for cid in ids:
             for c in (['int', 4], ['float', '2.5'], ['str', 'good']):
-                ctx.run('tsv_simple', {'ext': ext, 'field': 'group', 'data': [[cid, c]]})
+                ctx.run('tsv_simple', {'ext': ext, 'field': 'group', 'data': [[cid, c]], 'pre': True})
         for r in (2, 3):
             for sub in itertools.combinations(ids, r):
                 if quick and r == 3 and sum(abs(x) for x in sub) % 3:
@@ -726,9 +743,10 @@ def enumerate_cases(ctx):
     ctx.scope('write_python/read_python: empty dict; each of %d plain values (ints, finite floats, booleans, strings without quotes/backslashes/newlines, nested lists) under each of '
               '%d lower-case identifier keys (quick: 3 keys); every ordered pair of values under two keys (quick: a third of them); seeded random dicts of 1..7 entries' % (len(pvals), len(pkeys)))
     ctx.run('params', {'items': []})
+    ctx.run('params', {'items': [], 'pre': True})
     for i, v in enumerate(pvals):
         for k in (pkeys if not quick else [pkeys[i % len(pkeys)], 'f', 'dat_path']):
-            ctx.run('params', {'items': [[k, v]]})
+            ctx.run('params', {'items': [[k, v]], 'pre': True} if k == 'f' else {'items': [[k, v]]})
     for i, (v1, v2) in enumerate(itertools.product(pvals, repeat=2)):
         if quick and i % 3:
             continue
